@@ -187,9 +187,14 @@ func primary(f gallina.Flags) {
 		cf.Flush()
 	}
 
-	// ---- the length boundary of the stringlabels encoding (strings of 16 MiB cannot be shipped to
-	// Coq as byte lists; judged here, the model side is C39_len_2pow24_refuted)
-	for _, nlen := range []int{1<<24 - 1, 1 << 24} {
+	// ---- the length limit of the stringlabels encoding (strings of 16 MiB cannot be shipped to Coq as
+	// byte lists; judged here, the model side is C39_len_limit_rejected / C39_len_2pow24_old_refuted).
+	// Below 2^24 bytes a string is in the domain common to the three builds: all must yield the map.
+	// From 2^24 bytes on it is outside that domain: slicelabels/dedupelabels still accept it, and
+	// stringlabels must reject it cleanly while constructing (panic "String too long to encode as
+	// label.") - never hand out a corrupt label set (the regression of the fixed defect).
+	const tooLong = "String too long to encode as label."
+	for _, nlen := range []int{1<<24 - 1, 1 << 24, 1<<24 + 1} {
 		var sums []bigSummary
 		for i, v := range vars {
 			var s bigSummary
@@ -208,18 +213,29 @@ func primary(f gallina.Flags) {
 		}
 		id := fmt.Sprintf("big-%d", nlen)
 		ok := true
+		what := ""
 		for _, s := range sums {
-			if s.Panic != "" || s.LenA != nlen || s.Len != 2 || s.GetB != "c" || !s.RangeOK {
-				ok = false
+			good := s.Panic == "" && s.LenA == nlen && s.Len == 2 && s.GetB == "c" && s.RangeOK
+			if s.Impl == "stringlabels" && nlen >= 1<<24 {
+				good = s.Panic == tooLong && s.Stage == "construct"
+				if !good {
+					what = fmt.Sprintf("stringlabels must reject a %d byte value while constructing with %q; got panic=%q at stage %s, Len=%d", nlen, tooLong, s.Panic, s.Stage, s.Len)
+				}
+			} else if !good {
+				what = fmt.Sprintf("%s: FromStrings with a value of %d bytes does not yield the map {a: x*%d, b: c}: %+v", s.Impl, nlen, nlen, s)
 			}
+			ok = ok && good
 		}
-		meta.Hit("len-boundary-" + strconv.Itoa(nlen))
+		cls := "len-limit-common-domain"
+		if nlen >= 1<<24 {
+			cls = "len-limit-rejected-by-stringlabels"
+		}
+		meta.Hit(cls)
 		meta.Evaluations++
-		b, _ := json.Marshal(map[string]any{"shape": "stringlabels-len-2pow24", "prog": fmt.Sprintf("FromStrings(a, x*%d, b, c); Get(a); Len; Get(b); Range", nlen), "results": sums})
+		b, _ := json.Marshal(map[string]any{"shape": "stringlabels-len-2pow24", "prog": fmt.Sprintf("FromStrings(a, x*%d, b, c); Len; Get(b); Get(a); Range", nlen), "results": sums})
 		meta.Cases[id] = b
 		if !ok {
-			meta.GoViol = append(meta.GoViol, gallina.GoViolation{ID: id, Shape: "stringlabels-len-2pow24",
-				What: fmt.Sprintf("FromStrings with a value of %d bytes does not yield the map {a: x*%d, b: c} in every build: %+v", nlen, nlen, sums)})
+			meta.GoViol = append(meta.GoViol, gallina.GoViolation{ID: id, Shape: "stringlabels-len-2pow24", What: what})
 		}
 	}
 	meta.Notes = append(meta.Notes, "each case holds three transcripts (stringlabels, slicelabels, dedupelabels builds of the same harness source)")
